@@ -12,7 +12,7 @@ Definition no_uprop : name -> option (N -> bool) := fun _ => None.
 
 (* the real pipeline on the model: optimize, compile for the VM, run from rule r *)
 Definition vm_accepts (extras fixpop fixmap : bool) (G : grammar) (w : list byte) (fuel : nat) : option bool :=
-  match optimize extras fixpop fixmap G with
+  match optimize false extras fixpop fixmap G with
   | None => None
   | Some OG =>
       match parse_with wcfg (vm_env OG no_uranges) fuel (vm_start OG no_uranges (nm "r")) w None false with
